@@ -1,4 +1,4 @@
-(* Wire for C03 / C11: runs the model of _eval_const (and of the constant environment) on one case.
+(* Wire for C03 / C11: runs the model of _eval_const (and of the constant environment, case 1; of a function definition and a call, case 2) on one case.
    case 0: (0 cenv expr)  ->  (result trace has_name literal_length in_guard exact binds_safe calls)
      cenv   : ((name (0 val)) | (name (1)) ...)        Known / Marker
      result : (0 val) | (1 kind) | (9)                 kind 1 ValueError 2 TypeError 3 ZeroDivisionError
@@ -6,7 +6,7 @@
      exact  : every float produced by a sub-expression is a binary64 value (exact-rational = IEEE)
      calls  : (resolve_numeric resolve_bool glyph_bitmap resolve_sleep) outcomes *)
 From Coq Require Import ZArith QArith List Bool.
-From RV Require Import Base.Wire Base.Text Lang.PyAst Lang.PySem Lang.PyAstWire Gen.SafeCasts Lang.ConstEval Lang.ConstEnv.
+From RV Require Import Base.Wire Base.Text Lang.PyAst Lang.PySem Lang.PyAstWire Gen.SafeCasts Lang.ConstEval Lang.ConstEnv Lang.ConstFlow.
 Import ListNotations.
 Open Scope Z_scope.
 
@@ -132,8 +132,34 @@ Definition run_env (prog orc : list wv) : wv :=
            WL (match tblock p [] [] with Some (_, _, res, _) => obs_block res | None => [] end);
            WL [ wbool (split_ok p); enc_outs (sketch_outputs p o);
                 WL (match ttop p [] [] [] with Some (_, _, gs, _, _, _) => map enc_global gs | None => [] end);
-                WL (match ttop p [] [] [] with Some (_, _, _, body, _, _) => top_assigns body | None => [] end) ] ]
+                WL (match ttop p [] [] [] with Some (_, _, _, body, _, _) => top_assigns body | None => [] end) ];
+           (* the flow guard, and the hoisting side conditions of the module-level split alone *)
+           WL [ wbool (flow_ok p); wbool (match ttop p [] [] [] with Some (_, _, _, _, _, h) => h | None => false end) ] ]
   | _, _ => wbad
+  end.
+
+(* ---- case 2: (2 prefix params body mid args oracle) -> (accepted def_ok firmware python static-obs-of-the-body)
+   args are expressions evaluated in the module state at the call *)
+Fixpoint dec_texts (l : list wv) : option (list ident) :=
+  match l with
+  | [] => Some []
+  | x :: r => match un_text x, dec_texts r with Some n, Some ns => Some (n :: ns) | _, _ => None end
+  end.
+Fixpoint dec_vals (l : list wv) : option (list pval) :=
+  match l with
+  | [] => Some []
+  | x :: r => match dec_val x, dec_vals r with Some n, Some ns => Some (n :: ns) | _, _ => None end
+  end.
+Definition enc_outs2 (o : option (list pval * list pval)) : wv :=
+  match o with Some (a, b) => WL [WL (map enc_val a); WL (map enc_val b)] | None => WL [] end.
+Definition run_def (prefix ps body mid vals orc : list wv) : wv :=
+  match dec_stmts prefix, dec_texts ps, dec_stmts body, dec_stmts mid, dec_vals vals, dec_nats orc with
+  | Some p, Some xs, Some b, Some m, Some vs, Some o =>
+      WL [ wbool (match tdef p xs b m with Some _ => true | None => false end);
+           wbool (def_ok p xs b m);
+           enc_outs2 (firmware_call_outputs p xs b m vs o); enc_outs2 (python_call_outputs p xs b m vs o);
+           WL (match tdef p xs b m with Some (_, rb, _) => obs_block rb | None => [] end) ]
+  | _, _, _, _, _, _ => wbad
   end.
 
 Definition run (v : wv) : wv :=
@@ -152,5 +178,6 @@ Definition run (v : wv) : wv :=
       | _, _ => wbad
       end
   | WL [WI 1; WL prog; WL orc] => run_env prog orc
+  | WL [WI 2; WL prefix; WL ps; WL body; WL mid; WL vals; WL orc] => run_def prefix ps body mid vals orc
   | _ => wbad
   end.
